@@ -401,6 +401,14 @@ func resolveUnionBatch(ctx context.Context, sources []interface{}, typ *Union, s
 		}
 	}
 
+	// Fragments on the union type itself are transparent: their selections and
+	// fragments count as written directly in the union's selection set.
+	var unionSelections []*Selection
+	var memberFragments []*Fragment
+	if err := flattenUnionFragments(typ, selectionSet, &unionSelections, &memberFragments); err != nil {
+		return nil, err
+	}
+
 	var workUnits []*WorkUnit
 	for srcType, sources := range sourcesByType {
 		gqlType := typ.Types[srcType]
@@ -410,9 +418,9 @@ func resolveUnionBatch(ctx context.Context, sources []interface{}, typ *Union, s
 		// any fragment would be left unresolved (null instead of an object).
 		merged := &SelectionSet{
 			// Selections on the union itself (__typename) apply to every member.
-			Selections: append([]*Selection{}, selectionSet.Selections...),
+			Selections: append([]*Selection{}, unionSelections...),
 		}
-		for _, fragment := range selectionSet.Fragments {
+		for _, fragment := range memberFragments {
 			if fragment.On != srcType {
 				continue
 			}
@@ -431,6 +439,29 @@ func resolveUnionBatch(ctx context.Context, sources []interface{}, typ *Union, s
 		workUnits = append(workUnits, units...)
 	}
 	return workUnits, nil
+}
+
+// flattenUnionFragments collects the selections made on a union and the
+// fragments on its member types, looking through (included) fragments whose
+// type condition is the union itself.
+func flattenUnionFragments(typ *Union, selectionSet *SelectionSet, selections *[]*Selection, fragments *[]*Fragment) error {
+	*selections = append(*selections, selectionSet.Selections...)
+	for _, fragment := range selectionSet.Fragments {
+		if fragment.On != typ.Name {
+			*fragments = append(*fragments, fragment)
+			continue
+		}
+		ok, err := ShouldIncludeNode(fragment.Directives)
+		if err != nil {
+			return err
+		}
+		if ok {
+			if err := flattenUnionFragments(typ, fragment.SelectionSet, selections, fragments); err != nil {
+				return err
+			}
+		}
+	}
+	return nil
 }
 
 // Traverses the object selections and resolves or creates work units to resolve
